@@ -33,6 +33,12 @@ pub fn check_adaptor(c: &AdaptorCase, st: &mut Stats) -> CheckResult {
             ensure!(g[0].to_bits() == e[0].to_bits() && g[1].to_bits() == e[1].to_bits(), "frame {}: adaptor yields {:?}, the detector on the same history {:?}", i, g, e);
         }
         ensure!(ad.is_exhausted(), "adaptor not exhausted after its source ended");
+        // pulled past the end, the source yields equilibrium frames and each of them still reaches the detector
+        for j in 0..c.n + 3 {
+            let (g, e) = (ad.next(), direct.next([0i16; 2]));
+            ensure!(g[0].to_bits() == e[0].to_bits() && g[1].to_bits() == e[1].to_bits(), "{} frames past the end of the source: adaptor yields {:?}, the detector fed the same (equilibrium) frames {:?}", j + 1, g, e);
+        }
+        st.class("rms adaptor pulled past exhaustion");
     } else {
         let frames: Vec<f64> = c.frames.iter().map(|(a, _, _)| *a).collect();
         let mut direct = Rms::<f64, Vec<f64>>::new(Fixed::from(vec![0.0f64; c.n]));
@@ -43,6 +49,11 @@ pub fn check_adaptor(c: &AdaptorCase, st: &mut Stats) -> CheckResult {
             ensure!(g.to_bits() == e.to_bits(), "frame {}: adaptor yields {}, the detector on the same history {}", i, g, e);
         }
         ensure!(ad.is_exhausted(), "adaptor not exhausted after its source ended");
+        for j in 0..c.n + 3 {
+            let (g, e) = (ad.next(), direct.next(0.0));
+            ensure!(g.to_bits() == e.to_bits(), "{} frames past the end of the source: adaptor yields {}, the detector fed the same (equilibrium) frames {}", j + 1, g, e);
+        }
+        st.class("rms adaptor pulled past exhaustion");
         let (_, det) = ad.into_parts();
         ensure!(det.current().to_bits() == direct.current().to_bits(), "into_parts() detector state differs");
     }
@@ -56,6 +67,7 @@ pub fn run(ctx: &mut Ctx) {
     }
     run_core(ctx);
     ctx.require_class("rms signal adaptor");
+    ctx.require_class("rms adaptor pulled past exhaustion");
     let strat = (1usize..40, any::<bool>(), proptest::collection::vec((-1.0f64..1.0, -1.0f64..1.0, any::<bool>()), 0..200)).prop_map(|(n, int_frames, frames)| AdaptorCase { n, int_frames, frames });
     ctx.prop("adaptor", ctx.pick(3000, 40_000), strat, check_adaptor);
 }
